@@ -17,6 +17,7 @@ from mc import core
 
 PROPERTY = 'C06'
 GUARD = ['numqi.entangle', 'numqi.gellmann']  # argument-immutability oracle (mc.seams.ImmutabilityGuard)
+GUARD_LAYOUT = ['numqi.entangle', 'numqi.gellmann']  # memory-layout metamorphic oracle (same wrapper)
 LEVEL = 'model_checking'
 RULE = ('state = (dimension pair, direction of the alphabet, method variant) or (inner model, lattice parameter point); the direction '
         'alphabet x variant product is enumerated completely; transition = one boundary / criterion evaluation compared with an '
